@@ -171,6 +171,13 @@ pub fn gen_nid(rng: &mut Rng, thorough: bool, out: &mut String) {
             nid_deser(&format!("0x{s}"), out);
         }
     }
+    // non-JSON deserialisers: every length 0..=70 of raw bytes, and hex text as bytes
+    for len in 0..=70usize {
+        nid_deser_other(&rng.bytes(len), out);
+        let hexs: String = (0..len).map(|_| *rng.pick(b"0123456789abcdefABCDEF") as char).collect();
+        nid_deser_other(hexs.as_bytes(), out);
+        nid_deser_other(format!("0x{hexs}").as_bytes(), out);
+    }
     nid_deser("é", out);
     nid_deser(&format!("0x{}é", "a".repeat(62)), out);
 }
@@ -188,6 +195,7 @@ pub fn nid_exec(op: &str, inp: &[u8], out: &mut String) {
             writeln!(out, "nid op=parse in={} out={}", hx(inp), o).unwrap();
         }
         "deser" => nid_deser(&String::from_utf8_lossy(inp), out),
+        "deser_bytes" | "deser_str" | "deser_misc" => nid_deser_other(inp, out),
         "new" | "ser" | "debug" | "display" => {
             let Ok(raw) = <[u8; 32]>::try_from(inp) else { return };
             let id = NodeId::new(&raw);
@@ -204,6 +212,30 @@ pub fn nid_exec(op: &str, inp: &[u8], out: &mut String) {
         }
         _ => {}
     }
+}
+
+/// `NodeId::deserialize` driven by deserialisers that are not JSON: byte strings, borrowed and
+/// owned strings, numbers, units, sequences (serde::de::value)
+pub fn nid_deser_other(inp: &[u8], out: &mut String) {
+    use serde::de::value::{BorrowedBytesDeserializer, BytesDeserializer, Error as VErr, SeqDeserializer, StrDeserializer, StringDeserializer, U64Deserializer, UnitDeserializer};
+    use serde::Deserialize;
+    let show = |r: Option<Result<NodeId, VErr>>| match r {
+        None => "panic".to_string(),
+        Some(Ok(id)) => hx(&id.raw()),
+        Some(Err(_)) => "err".to_string(),
+    };
+    let a = show(guard(|| NodeId::deserialize(BytesDeserializer::<VErr>::new(inp))));
+    let b = show(guard(|| NodeId::deserialize(BorrowedBytesDeserializer::<VErr>::new(inp))));
+    writeln!(out, "nid op=deser_bytes in={} out={} out2={}", hx(inp), a, b).unwrap();
+    if let Ok(s) = std::str::from_utf8(inp) {
+        let c = show(guard(|| NodeId::deserialize(StrDeserializer::<VErr>::new(s))));
+        let d = show(guard(|| NodeId::deserialize(StringDeserializer::<VErr>::new(s.to_string()))));
+        writeln!(out, "nid op=deser_str in={} out={} out2={}", hx(inp), c, d).unwrap();
+    }
+    let e = show(guard(|| NodeId::deserialize(U64Deserializer::<VErr>::new(inp.len() as u64))));
+    let f = show(guard(|| NodeId::deserialize(UnitDeserializer::<VErr>::new())));
+    let g2 = show(guard(|| NodeId::deserialize(SeqDeserializer::<_, VErr>::new(inp.iter().copied()))));
+    writeln!(out, "nid op=deser_misc in={} out={} out2={} out3={}", hx(inp), e, f, g2).unwrap();
 }
 
 fn nid_deser(s: &str, out: &mut String) {
